@@ -1044,3 +1044,79 @@ func (w *World) performs(in ssa.Instruction, names []string, depth int) bool {
 	alwaysMemo[key] = res
 	return res
 }
+
+// dataDeps: the intra-procedural backward data slice of v: every value v is computed from, through
+// operands, phis, tuple extracts, and loads of locals (all stores to the Alloc or to a field/element
+// of it).  Control dependences are not followed.
+func dataDeps(v ssa.Value) map[ssa.Value]bool {
+	seen := map[ssa.Value]bool{}
+	var work []ssa.Value
+	push := func(x ssa.Value) {
+		if x != nil && !seen[x] {
+			seen[x] = true
+			work = append(work, x)
+		}
+	}
+	baseAlloc := func(a ssa.Value) *ssa.Alloc {
+		for i := 0; i < 8; i++ {
+			switch x := a.(type) {
+			case *ssa.Alloc:
+				return x
+			case *ssa.FieldAddr:
+				a = x.X
+			case *ssa.IndexAddr:
+				a = x.X
+			default:
+				return nil
+			}
+		}
+		return nil
+	}
+	var storesInto func(a ssa.Value, depth int)
+	storesInto = func(a ssa.Value, depth int) {
+		if depth > 4 {
+			return
+		}
+		refs := a.Referrers()
+		if refs == nil {
+			return
+		}
+		for _, ref := range *refs {
+			switch x := ref.(type) {
+			case *ssa.Store:
+				if x.Addr == a {
+					push(x.Val)
+				}
+			case *ssa.FieldAddr:
+				if x.X == a {
+					storesInto(x, depth+1)
+				}
+			case *ssa.IndexAddr:
+				if x.X == a {
+					storesInto(x, depth+1)
+				}
+			}
+		}
+	}
+	push(v)
+	for len(work) > 0 {
+		x := work[len(work)-1]
+		work = work[:len(work)-1]
+		if u, ok := x.(*ssa.UnOp); ok && u.Op == token.MUL {
+			if al := baseAlloc(u.X); al != nil {
+				storesInto(al, 0)
+			}
+		}
+		in, ok := x.(ssa.Instruction)
+		if !ok {
+			continue
+		}
+		var ops []*ssa.Value
+		for _, op := range in.Operands(ops) {
+			if op != nil {
+				push(*op)
+			}
+		}
+	}
+	return seen
+}
